@@ -19,6 +19,7 @@ def run(ctx):
     ctx.rule("R12.d", "every __set__ definition of a Parameter class carries @instance_descriptor; the wrapper delegates to the per-instance Parameter and returns", floor=4)
     ctx.rule("R12.e", "_setup_params: instantiate=True parameters are deep-copied per instance, constant ones are referenced (deepcopy=False); _instantiate_param stores deepcopy(default) / default accordingly", floor=3)
     ctx.rule("R12.g", "class-level assignment on a subclass copies the inherited Parameter into the subclass before setting (copy-on-write)", floor=1)
+    ctx.rule("R12.m", "setter model: Parameter.__set__ interpreted abstractly on every combination (576) of route x constant/readonly x validation outcome x identity x reference mode x watchers x batching agrees with the specification of this property (see checks/setter_model.py)", floor=1)
     ctx.not_decided += ["order-dependent histories (whether the per-instance copy existed before a class-level change) -- the rules make them irrelevant but the behavioural statement is not executed"]
 
     # ------------------------------------------------------------ R12.a
@@ -224,3 +225,7 @@ def run(ctx):
     else:
         ctx.fail("R12.g", ms, sets[0], "a class-level assignment on a subclass sets the value on the parent's Parameter object (no copy-on-write): the parent class and its other subclasses change too",
                  key="%s::no-copy-on-write" % ms.qualname)
+
+    # model-level rule, run last (see DESIGN §10)
+    from checks import setter_model
+    setter_model.report(ctx, "C12", "R12.m")
